@@ -197,7 +197,18 @@ class Ctx:
                 p2.add("p", 1)
                 ok = p2.check("p") == 1 and p2.elements_added == 1 and CountingBloomFilter.frombytes(bytes(p2), hash_function=lambda k, d=1: list(range(d))).check("p") == 1
                 p2.remove("p", 1)
-                self.patch_ok = self.patch_ok and ok and p2.check("p") == 0
+                ok = ok and p2.check("p") == 0
+                # ... and do union / remove read the patched limit as well (an implementation may have captured the real one at import time)?
+                hi = params["cellmax"]
+                hfp = lambda k, d=1: list(range(d))  # noqa
+                a = CountingBloomFilter(est_elements=est, false_positive_rate=fpr, hash_function=hfp)
+                b = CountingBloomFilter(est_elements=est, false_positive_rate=fpr, hash_function=hfp)
+                a.add("p", hi - 1)
+                b.add("p", 2)
+                u = a.union(b)
+                ok = ok and u.check("p") == hi            # clamped at the patched limit
+                ok = ok and u.remove("p", 1) == hi and u.check("p") == hi      # a pinned cell is never decremented
+                self.patch_ok = self.patch_ok and ok
             except Exception:  # noqa
                 self.patch_ok = False
 
